@@ -14,6 +14,7 @@
 #include <cstring>
 #include <sstream>
 #include "core.h"
+#include "cov.h"
 #include "symtab.h"
 #include "task.h"
 
@@ -638,7 +639,7 @@ int driver_main(int argc, char **argv, Engine &e) {
         std::vector<std::string> samples;
         for (uint64_t i = 0; i < 3 && i < runs; i++) {
             std::string p = e.gen(e.property, seed, i, thorough);
-            if (p.size() > 3000) p = p.substr(0, 3000) + "\n... (truncated)";
+            if (p.size() > 900) p = p.substr(0, 900) + "\n... (truncated; regenerate with --gen --seed S --idx I)";
             samples.push_back(p);
         }
         fprintf(f, "{\n \"property_id\": %s,\n \"tier\": %s,\n \"seed\": %llu,\n \"level\": %s,\n", jstr(e.property).c_str(),
@@ -667,6 +668,13 @@ int driver_main(int argc, char **argv, Engine &e) {
         for (auto &p : e.probes) if (!ag.counters.count(p) || !ag.counters[p]) zero.push_back(p);
         fprintf(f, "  \"probes_at_zero\": %s,\n", jlist(zero).c_str());
         fprintf(f, "  \"known_findings_hit\": %s,\n  \"violation_signatures\": %s,\n", jlist(known_hit).c_str(), jlist(violations_out).c_str());
+        {
+            CovReport cr = cov_report();
+            std::vector<std::string> unc = cr.uncovered_funcs;
+            if (unc.size() > 400) unc.resize(400);
+            fprintf(f, "  \"repo_edges_total\": %u,\n  \"repo_edges_covered\": %u,\n  \"repo_functions_total\": %u,\n  \"repo_functions_entered\": %u,\n  \"repo_functions_not_entered\": %s,\n",
+                    cr.edges_total, cr.edges_covered, cr.funcs_total, cr.funcs_covered, jlist(unc).c_str());
+        }
         fprintf(f, "  \"real_code\": %s,\n  \"stubs\": %s\n", jlist(e.real_components).c_str(), jlist(e.stub_components).c_str());
         fprintf(f, " }\n}\n");
         fclose(f);
